@@ -93,6 +93,27 @@ class World:
             self.where[a['p']] = a['m']
             self.inmap[a['p']] = True
             return new.id
+        if op == 'failcreate':
+            # a construction rejected for bad arguments, with a wish that is someone's ID
+            vmf = self.maps[a['m']]
+            try:
+                if k == 'solid':
+                    Solid(vmf, a['d'], [], 5)                         # visgroup_ids must be iterable
+                elif k == 'side':
+                    Side(vmf, [Vec(), Vec(1, 0, 0)], des_id=a['d'])   # needs exactly three points
+                elif k == 'ent':
+                    Entity(vmf, ent_id=a['d'], fixup=5)               # fixup must be iterable
+                elif k == 'vis':
+                    VisGroup(vmf, 'v', a['d'], child_groups=5, bogus=1)
+                else:
+                    EntityGroup(vmf, a['d'], bogus=1)
+            except (TypeError, ValueError):
+                pass
+            else:
+                raise RuntimeError(f'failcreate: the {k} constructor accepted the bad arguments')
+            if collect:
+                gc.collect()
+            return 0
         obj = self.objs[a['o']]
         vmf = self.maps[self.where[a['o']]]
         if op == 'detach':
@@ -267,7 +288,7 @@ def random_life(out: hlib.RecWriter, rng: random.Random, n_hist: int, length: in
                 if live:
                     choices += ['copy'] * 2
             if live:
-                choices += ['drop'] * 2 + ['detach', 'attach']
+                choices += ['drop'] * 2 + ['detach', 'attach', 'failcreate']
             op = rng.choice(choices)
             d = rng.choice([-1, -1, 0, -3, 1, 2, 3, rng.randint(1, 10), rng.randint(1, 50)])
             if op == 'create':
@@ -276,6 +297,9 @@ def random_life(out: hlib.RecWriter, rng: random.Random, n_hist: int, length: in
                 a = {'op': 'copy', 'o': rng.choice(live), 'p': rng.choice(free), 'm': rng.choice(maps), 'd': rng.choice([-1, -1, d])}
             elif op == 'drop':
                 a = {'op': 'drop' if kind in RELEASES else 'forget', 'o': rng.choice(live)}
+            elif op == 'failcreate':
+                victim = rng.choice(live)
+                a = {'op': 'failcreate', 'm': w.where[victim], 'd': w.objs[victim].id}
             elif op == 'detach':
                 c = [o for o in live if w.inmap[o]]
                 if not c or kind not in ('ent', 'solid'):
